@@ -260,12 +260,17 @@ def c01_regex_polls(tier="quick", seed=0):
             loops += 1
             head = w.body[:3]
             txt = "\n".join(ast.unparse(x) for x in head)
-            counts = any(isinstance(x, ast.AugAssign) and isinstance(x.op, ast.Add) and ast.unparse(x.target) == "step_count" for x in head)
-            polls = "step_count % self.poll_interval == 0" in txt and "self.poll_callback()" in txt and "raise RegexTimeoutError" in txt
+            counter = [ast.unparse(x.target) for x in head if isinstance(x, ast.AugAssign) and isinstance(x.op, ast.Add)
+                       and isinstance(x.value, ast.Constant) and x.value.value == 1]
+            counts = bool(counter)
+            polls = counts and f"{counter[0]} % self.poll_interval == 0" in txt and "self.poll_callback()" in txt and "raise RegexTimeoutError" in txt
             out.append(ob(f"C01.regex-polls.{f.name}", counts and polls, "K3",
                           f"{f.name}: loop at line {w.lineno} {'counts steps and polls the deadline first' if counts and polls else 'does not start by counting a step and polling the deadline'}",
                           witness="/(?<=(?:a|a)*c)x/.test('aaaaaaaaaaaaaaaaaaaaaaaaaaaaax') under a time limit"))
-    out.append(ob("C01.regex-polls.inventory", loops >= 3, "K3", f"{loops} backtracking loops inspected"))
+    # sub-matchers of look-around assertions either are that loop (recursive call) or have their own counted loop
+    subs = [f.name for f in ast.walk(tree) if isinstance(f, ast.FunctionDef) and ("lookahead" in f.name or "lookbehind" in f.name)]
+    out.append(ob("C01.regex-polls.inventory", loops >= 1 and (loops >= 1 + len(subs)), "K3",
+                  f"{loops} backtracking loops inspected; separate look-around matchers: {subs or 'none (they run on the shared loop)'}"))
     return out
 
 
